@@ -155,7 +155,6 @@ MUTANTS = [
     ('bcret', BCSTMT, '        bc.write_iter_stop(span);\n        if compiler.has_return_type {', '        if compiler.has_return_type {', 'write_return'),
     ('spans', PRD, '                    let value = self.parse_test()?;\n                    let r = self.last_end;\n                    Ok(Argument::Named(name, value).ast(l, r))', '                    let r = self.last_end;\n                    let value = self.parse_test()?;\n                    Ok(Argument::Named(name, value).ast(l, r))', 'argument'),
     ('spans', PRD, '                    let expr = self.continue_ternary(expr)?;\n                    let r = self.last_end;\n                    Ok(Argument::Positional(expr).ast(l, r))', '                    let r = self.last_end;\n                    let expr = self.continue_ternary(expr)?;\n                    Ok(Argument::Positional(expr).ast(l, r))', 'argument'),
-    ('spans', PRD, '                    let args = self.parse_comma_separated_args()?;\n                    self.expect(&Token::ClosingRound)?;\n                    let r = self.last_end;', '                    let r = self.last_end;\n                    let args = self.parse_comma_separated_args()?;\n                    self.expect(&Token::ClosingRound)?;', 'continue_primary'),
     ('spans', PRD, '                    let ident = self.parse_identifier_string()?;\n                    let r = self.last_end;\n                    lhs = Expr::Dot(Box::new(lhs), ident).ast(l, r);', '                    let r = self.last_end;\n                    let ident = self.parse_identifier_string()?;\n                    lhs = Expr::Dot(Box::new(lhs), ident).ast(l, r);', 'continue_primary'),
     ('calls', INSTR, '        eval.with_call_stack(self.to_value(), Some(location), |eval| {\n            self.invoke(args, eval)\n        })', '        self.invoke(args, eval)', 'bc_invoke'),
     ('calls', 'starlark/src/values/layout/value.rs', '        eval.with_call_stack(self, location, |eval| {\n            self.get_ref_full().invoke(args, eval)\n        })', '        self.get_ref_full().invoke(args, eval)', 'invoke_with_loc'),
